@@ -18,7 +18,7 @@ KIND_TEXT = {
 }
 
 
-def run_cap(chk, prog, fns, rule="B1", noreturn=("libast_fatal_error",), kinds=None, cap_factory=None, entry=None):
+def run_cap(chk, prog, fns, rule="B1", noreturn=("libast_fatal_error",), kinds=None, cap_factory=None, entry=None, strict=False):
     """Analyse each function; BAD obligations become violations, undecided ones are counted."""
     n_und = 0
     n_fn = 0
@@ -44,6 +44,12 @@ def run_cap(chk, prog, fns, rule="B1", noreturn=("libast_fatal_error",), kinds=N
             loc = o.fn.loc(o.node)
             if o.ok:
                 chk.ob(rule, fn.name, site, True, loc=loc, proof="entailed by the path condition on every explored path (Fourier-Motzkin)")
+            elif o.undecided and strict and o.kind in ("lower", "upper", "count", "null"):
+                # strict scope: every bound of these functions is proven on the reviewed tree, so a bound that can no
+                # longer be established is reported
+                chk.ob(rule, fn.name, site, False, loc=loc,
+                       detail="%s: no bound can be established any more: %s (the loop invariants that proved this on the reviewed tree "
+                              "no longer hold)" % (fn.name, o.detail))
             elif o.undecided:
                 n_und += 1
                 if len(und_samples) < 12:
